@@ -81,6 +81,9 @@ pub struct Env {
     pub ring_fd: Mutex<Option<RawFd>>,
     pub rt_waker: Mutex<Option<Waker>>,
     pub timer_early: AtomicBool,
+    /// outside events that have been fired already (an event is fired once: firing it again could rescue a loop
+    /// that lost it)
+    pub fired: Mutex<Vec<String>>,
     /// negative control: a wake() that sets its condition but never calls the waker
     pub neg_skip_wake: bool,
 }
@@ -128,6 +131,7 @@ impl Env {
             ring_fd: Mutex::new(None),
             rt_waker: Mutex::new(None),
             timer_early: AtomicBool::new(false),
+            fired: Mutex::new(vec![]),
             neg_skip_wake: std::env::var("VERIF_NEG_SKIP_WAKE").is_ok(),
         })
     }
@@ -139,8 +143,12 @@ impl Env {
         s.cond.store(true, Ordering::SeqCst);
         let wk = s.waker.lock().unwrap().clone();
         match wk {
-            Some(_) if self.neg_skip_wake => true,
+            Some(_) if self.neg_skip_wake => {
+                self.fired.lock().unwrap().push(name.to_string());
+                true
+            }
             Some(wk) => {
+                self.fired.lock().unwrap().push(name.to_string());
                 wk.wake_by_ref();
                 true
             }
@@ -149,6 +157,7 @@ impl Env {
     }
 
     pub fn fire_op(&self, name: &str) {
+        self.fired.lock().unwrap().push(name.to_string());
         let b = [value_of(name) as u8];
         let fd = self.pipes[name].1.as_raw_fd();
         // (the read end is gone once the operation has completed: a late write of the tear-down may fail)
@@ -156,6 +165,7 @@ impl Env {
     }
 
     pub fn fire_job(&self, name: &str) {
+        self.fired.lock().unwrap().push(name.to_string());
         let g = &self.gates[name];
         *g.open.lock().unwrap() = true;
         g.cv.notify_all();
@@ -163,6 +173,30 @@ impl Env {
 
     pub fn deadline(&self, name: &str) -> Option<Instant> {
         self.deadlines.lock().unwrap().get(name).copied()
+    }
+
+    pub fn was_fired(&self, name: &str) -> bool {
+        self.fired.lock().unwrap().iter().any(|n| n == name)
+    }
+
+    /// Fire, from the calling thread, every outside event that has not happened yet (each exactly once).
+    pub fn fire_remaining(&self) {
+        for (o, _) in &self.prog.ops {
+            if !self.was_fired(o) {
+                self.fire_op(o);
+            }
+        }
+        for (j, _) in &self.prog.jobs {
+            if !self.was_fired(j) {
+                self.fire_job(j);
+            }
+        }
+        let mut pending: Vec<String> = self.prog.wakers.iter().map(|(w, _)| w.clone()).filter(|w| !self.was_fired(w)).collect();
+        let t0 = Instant::now();
+        while !pending.is_empty() && t0.elapsed() < Duration::from_secs(10) {
+            pending.retain(|w| !self.fire_wake(w));
+            std::thread::sleep(Duration::from_millis(1));
+        }
     }
 
     /// Release everything (tear down / rescue of a run that hangs).
